@@ -447,7 +447,7 @@ def cases(tier, seed):
     p['required'] = required
     out.append(dict(name=p['name'], fn=fn, params=p, cap=cap, required=required))
 
-  bounds = [(None, None), (0.0, 1.0), (-1.0, None), (None, 2.5), (-3.0, -1.0), (None, -2.0), (2.0, None)]
+  bounds = [(None, None), (0.0, 1.0), (-1.0, None), (None, 2.5), (-3.0, -1.0), (None, -2.0), (2.0, None), (-1.0, 0.0), (0.0, None), (None, 0.0)]
   shapes = [([2, 2], [1, 1], None), ([3, 3], [1, 0], None), ([2, 3], None, None), ([3, 4], [0, 1], [1, 0]), ([2, 2, 2], [1, 0, 1], None),
             ([3, 3, 2], [0, 0, 1], [-1, 1, 0]), ([4, 3], None, ['peak', 'valley'])]
   k = 0
@@ -465,7 +465,7 @@ def cases(tier, seed):
           init='random_monotonic_initializer', max_schedules=40, seed=seed)
   for init in ('equal_heights', 'equal_slopes'):
     for mono in (0, 1, -1):
-      for (omin, omax) in ((None, None), (0.0, 1.0), (-1.0, None), (None, 2.5)):
+      for (omin, omax) in ((None, None), (0.0, 1.0), (-1.0, None), (None, 2.5), (-1.0, 0.0), (0.0, None), (None, 0.0)):
         add('case_pwl', nk=2 + (mono + 1) + (1 if init == 'equal_slopes' else 0), units=1 + abs(mono), mono=mono, omin=omin, omax=omax, init=init)
   add('case_pwl', nk=4, units=2, mono=1, omin=0.0, omax=1.0, init='equal_slopes', clamp_min=True, clamp_max=True, missing=True)
   # the documented string spellings of the same configurations
@@ -478,7 +478,7 @@ def cases(tier, seed):
   add('case_lattice_random', sizes=[2, 3], units=2, mono=['increasing', 'increasing'], omin=0.0, omax=1.0, init='random_monotonic_initializer',
       max_schedules=40, seed=seed)
   add('case_kfl', ls=2, dims=2, units=2, terms=1, mono=['increasing', 'none'], omin=0.0, omax=None, timeout=60)
-  for (omin, omax) in ((None, None), (0.0, None), (None, 1.0), (0.0, 1.0), (-1.0, 2.5)):
+  for (omin, omax) in ((None, None), (0.0, None), (None, 1.0), (0.0, 1.0), (-1.0, 2.5), (-1.0, 0.0), (None, 0.0), (-2.5, 0)):
     for mono in ([1, 0], [1, 1], None):
       add('case_kfl', ls=2, dims=2, units=1, terms=2, mono=mono, omin=omin, omax=omax,
           required=not (omin is not None and omax is not None), timeout=60)
